@@ -6,6 +6,7 @@ Helper lemmas for C07 (4): macro definition and expansion keep data free of `n/0
   (`subst_ratOk_all`, `transform_ratOk`).
 -/
 import RuschmProofs.SafeFront
+import RuschmProofs.SharedLemmas
 
 namespace Ruschm
 open Ruschm
@@ -545,8 +546,11 @@ theorem mapM_exportSpec_env {ds : List Datum} {s r s'}
     (h : List.mapM toExportSpec ds s = (r, s')) : s' = s :=
   (XPure.mapM (fun d => XPure.toExportSpec d) ds).eq h
 
-theorem toFormals_env {d : Datum} {s r s'} (h : toFormals d s = (r, s')) : s' = s :=
-  (XPure.toFormals d).eq h
+/-- `Xform.toFormals_env` (`SharedLemmas.lean`) in the form the `grind` calls below use -/
+theorem toFormals_env_of_eq {d : Datum} {s r s'} (h : toFormals d s = (r, s')) : s' = s := by
+  have := toFormals_env d s
+  rw [h] at this
+  exact this
 
 theorem toLibName_env {ds : List Datum} {s r s'} (h : toLibName ds s = (r, s')) : s' = s :=
   (XPure.toLibName ds).eq h
@@ -717,7 +721,7 @@ theorem ok_defn : ∀ args s r s', toDefinition (n+1) args s = (r, s') → (∀ 
   have hdr := ratOk_of_drop ha 1
   repeat' (first | split at h | simp only [bind_def', pure_def', fail, lift, need_eq, identOf, Prod.mk.injEq] at h)
   all_goals grind [OKAt.expr', OKAt.body', Expr.ok, Lambda.ok, Def.okList, Expr.okList, ratOk_of_head?, ratOk_of_drop_head?,
-    toFormals_env]
+    toFormals_env_of_eq]
 
 theorem ok_lam : ∀ args s r s', toLambda (n+1) args s = (r, s') → (∀ a ∈ args, a.ratOk = true) → SynEnv.RatOK s →
     SynEnv.RatOK s' ∧ ∀ l, r = .ok l → l.ok = true := by
@@ -726,7 +730,7 @@ theorem ok_lam : ∀ args s r s', toLambda (n+1) args s = (r, s') → (∀ a ∈
   have hdr := ratOk_of_drop ha 1
   have hpush := SynEnv.ratOK_push hs
   repeat' (first | split at h | simp only [bind_def', pure_def', fail, lift, need_eq, Prod.mk.injEq] at h)
-  all_goals grind [inChild_fw, OKAt.body', Lambda.ok, Def.okList, Expr.okList, toFormals_env, SynEnv.ratOK_tail, SynEnv.ratOK_nil]
+  all_goals grind [inChild_fw, OKAt.body', Lambda.ok, Def.okList, Expr.okList, toFormals_env_of_eq, SynEnv.ratOK_tail, SynEnv.ratOK_nil]
 
 
 theorem ok_body : ∀ ds defs exprs s r s', toBody (n+1) ds defs exprs s = (r, s') → (∀ a ∈ ds, a.ratOk = true) →
